@@ -2,16 +2,21 @@ import FimVerif.Proofs.Lemmas.C06Nbr
 import FimVerif.Proofs.Lemmas.C06Sp
 import FimVerif.Proofs.Lemmas.C06Wf
 import FimVerif.Proofs.Lemmas.C06Hops
+/-!
+# C06 — neighbour and path queries return exactly what their contract describes
+
+Property theorems only (helper lemmas: `Proofs/Lemmas/C06*.lean`; model: `Model/Query.lean`).
+All statements quantify over every typed graph view `g`; `wf g` (node ids distinct, edge ends are nodes, one edge per
+unordered pair) is decidable and holds for every view built through `add_node`/`add_link` (`wf_build`).
+
+* neighbours: `first_neighbor_exact`, `first_neighbor_total`, `first_neighbor_nodup`, `get_parent_unique`
+* two hops: `two_hop_exact` (for the repaired idiom), `two_hop_counterexample` + `two_hop_partial` (code as written —
+  known finding), `two_hop_total`, `two_hop_nodup`, `second_components_spec`
+* shortest path: `shortest_path_sound`, `shortest_path_empty_iff_unreachable`, `shortest_path_minimal`, `shortest_path_total`
+* path with hops: `hops_sound`, `hops_minimal`, `hops_empty_iff_none`, `hops_total`
+-/
 namespace FimVerif.C06
 open FimVerif.Query FimVerif.Gen
-
-theorem prologue1 {α} {g : TGraph} {n : String} {f : List α} {l : List α}
-    (h : (do extract g; findNode g n; pure f : Except Err (List α)) = .ok l) :
-    n ∈ verts g ∧ l = f := by
-  unfold extract findNode at h
-  by_cases h1 : g.nodes.isEmpty = true <;> by_cases h2 : n ∈ verts g <;>
-    simp [h1, h2, bind, Except.bind, pure, Except.pure] at h
-  exact ⟨h2, h.symm⟩
 
 /-- **first_neighbor_exact.**  On a well-formed view, `get_first_neighbor(n, rel, cls)` returns exactly the nodes of
     class `cls` joined to `n` by an edge of relation `rel`. -/
@@ -94,14 +99,6 @@ theorem two_hop_exact (hfix : QueryIdioms.hop2DropsNeighbour = true)
   · rintro ⟨⟨_, a⟩, b, ⟨_, c⟩, d, e⟩; exact ⟨a, b, c, d, e⟩
   · rintro ⟨a, b, c, d, e⟩; exact ⟨⟨⟨_, a⟩, a⟩, b, ⟨⟨_, c⟩, c⟩, d, e⟩
 
-theorem prologue_ok {g : TGraph} {n : String} (hn : n ∈ verts g) :
-    extract g = .ok () ∧ findNode g n = .ok () := by
-  have hne : g.nodes.isEmpty = false := by
-    cases hg : g.nodes with
-    | nil => simp [verts, hg] at hn
-    | cons => rfl
-  simp [extract, findNode, hne, hn]
-
 /-- the two-hop query answers for every node of the graph -/
 theorem two_hop_total {g : TGraph} {n : String} (hn : n ∈ verts g) (r1 c1 r2 c2 : String) :
     getFirstAndSecondNeighbor g n r1 c1 r2 c2 = .ok (twoHop g n r1 c1 r2 c2) := by
@@ -122,8 +119,6 @@ theorem two_hop_counterexample (hbug : QueryIdioms.hop2DropsNeighbour = false) :
   · simp only [twoHop, hbug, h1]
     decide
   · simp [TwoHopSpec, Edge, cexGraph, build, apply, addNode, addLink, verts, empty, joins]
-
-
 
 /-- **two_hop_partial** — what holds for the code *as written* (either value of the generated flag).
     Full statement, which the as-written code violates (`two_hop_counterexample`):
@@ -193,7 +188,9 @@ theorem class_lookup_is_membership {g : TGraph} (hw : wf g = true) (m c : String
 `rel` when one is requested.  The proofs use `dropIteratesSnapshot = true`, read from the source on every run:
 with the live-view iteration the model raises `runtime` and `shortest_path_total` no longer type-checks. -/
 
+/-- the generated idiom flags the path theorems rest on (re-read from the source on every run) -/
 theorem snapshot : QueryIdioms.dropIteratesSnapshot = true := by decide
+theorem strict : QueryIdioms.hopsReplaceStrict = true := by decide
 
 /-- **shortest_path_sound.**  A non-empty answer is an actual path between the end nodes using only edges of the
     requested relation. -/
@@ -244,64 +241,17 @@ example : wf cexGraph = true ∧ shortest (restrict cexGraph (some "r")) "a" "b"
     shortest (restrict cexGraph (some "s")) "a" "c" = [] ∧ shortest (restrict cexGraph none) "a" "c" = ["a", "b", "c"] := by
   decide
 
-
 /-! ## path with hops
 
 "Loop-free" is the code's documented sense: no cycle in the subgraph induced by the path (`LoopFree`: no repeated
 node and no edge between non-consecutive path nodes, self-loops included). -/
-
-/-- the contract of `get_nodes_on_path_with_hops`: a loop-free path from `a` to `z` with at most `cutoff` edges
-    that contains every requested hop -/
-def HopPath (g : TGraph) (a z : String) (hops : List String) (cutoff : Nat) (p : List String) : Prop :=
-  IsPath g none a z p ∧ LoopFree g p ∧ (∀ h ∈ hops, h ∈ p) ∧ p.length ≤ cutoff + 1
-
-theorem mem_candidates {g : TGraph} {a z : String} {hops : List String} {cutoff : Nat} {p : List String} :
-    p ∈ (allSimple g z cutoff a []).filter (hopOk g hops) ↔ HopPath g a z hops cutoff p := by
-  rw [List.mem_filter]
-  constructor
-  · rintro ⟨hm, hok⟩
-    obtain ⟨hh, hl, hc, hnd, _, hlen⟩ := allSimple_sound cutoff a [] p (by simp) hm
-    simp only [hopOk, Bool.and_eq_true, List.all_eq_true, decide_eq_true_eq] at hok
-    exact ⟨⟨hh, hl, hc⟩, ⟨hnd, chordFree_iff.1 hok.1⟩, hok.2, hlen⟩
-  · rintro ⟨⟨hh, hl, hc⟩, ⟨hnd, hcf⟩, hhops, hlen⟩
-    refine ⟨allSimple_complete cutoff a [] p ⟨hh, hl, hc, hnd, by simp, hlen⟩, ?_⟩
-    simp only [hopOk, Bool.and_eq_true, List.all_eq_true, decide_eq_true_eq]
-    exact ⟨chordFree_iff.2 hcf, hhops⟩
-
-theorem hops_ok {g : TGraph} {a z : String} {hops : List String} {cutoff : Nat} {p : List String}
-    (h : getNodesOnPathWithHops g a z hops cutoff = .ok p) :
-    a ∈ verts g ∧ z ∈ verts g ∧ p = pathWithHops g a z hops cutoff := by
-  unfold getNodesOnPathWithHops extract findNode at h
-  by_cases h1 : g.nodes.isEmpty = true <;> by_cases h2 : a ∈ verts g <;> by_cases h3 : z ∈ verts g <;>
-    simp [h1, h2, h3, bind, Except.bind, pure, Except.pure] at h
-  exact ⟨h2, h3, h.symm⟩
-
-theorem strict : QueryIdioms.hopsReplaceStrict = true := by decide
-
-theorem pathWithHops_spec (g : TGraph) (a z : String) (hops : List String) (cutoff : Nat) :
-    let p := pathWithHops g a z hops cutoff
-    (p = [] ∧ ¬ ∃ q, HopPath g a z hops cutoff q) ∨
-    (HopPath g a z hops cutoff p ∧ ∀ q, HopPath g a z hops cutoff q → p.length ≤ q.length) := by
-  intro p
-  have hne : ∀ q ∈ (allSimple g z cutoff a []).filter (hopOk g hops), q ≠ [] := by
-    intro q hq he
-    have := (mem_candidates.1 hq).1.1
-    rw [he] at this; simp at this
-  rcases pick_spec strict hne with ⟨he, hp⟩ | ⟨hm, hmin⟩
-  · left
-    refine ⟨hp, ?_⟩
-    rintro ⟨q, hq⟩
-    have := mem_candidates.2 hq
-    rw [he] at this; simp at this
-  · right
-    exact ⟨mem_candidates.1 hm, fun q hq => hmin q (mem_candidates.2 hq)⟩
 
 /-- **hops_sound.**  A non-empty answer runs from `a` to `z`, is loop-free, contains every requested hop and
     respects the cut-off. -/
 theorem hops_sound {g : TGraph} {a z : String} {hops : List String} {cutoff : Nat} {p : List String}
     (h : getNodesOnPathWithHops g a z hops cutoff = .ok p) (hne : p ≠ []) : HopPath g a z hops cutoff p := by
   obtain ⟨_, _, rfl⟩ := hops_ok h
-  rcases pathWithHops_spec g a z hops cutoff with ⟨he, _⟩ | ⟨hp, _⟩
+  rcases pathWithHops_spec strict g a z hops cutoff with ⟨he, _⟩ | ⟨hp, _⟩
   · exact absurd he hne
   · exact hp
 
@@ -311,7 +261,7 @@ theorem hops_minimal {g : TGraph} {a z : String} {hops : List String} {cutoff : 
     (h : getNodesOnPathWithHops g a z hops cutoff = .ok p) {q : List String} (hq : HopPath g a z hops cutoff q) :
     p ≠ [] ∧ p.length ≤ q.length := by
   obtain ⟨_, _, rfl⟩ := hops_ok h
-  rcases pathWithHops_spec g a z hops cutoff with ⟨_, hno⟩ | ⟨hp, hmin⟩
+  rcases pathWithHops_spec strict g a z hops cutoff with ⟨_, hno⟩ | ⟨hp, hmin⟩
   · exact absurd ⟨q, hq⟩ hno
   · refine ⟨?_, hmin q hq⟩
     intro he
@@ -322,7 +272,7 @@ theorem hops_minimal {g : TGraph} {a z : String} {hops : List String} {cutoff : 
 theorem hops_empty_iff_none {g : TGraph} {a z : String} {hops : List String} {cutoff : Nat} {p : List String}
     (h : getNodesOnPathWithHops g a z hops cutoff = .ok p) : p = [] ↔ ¬ ∃ q, HopPath g a z hops cutoff q := by
   obtain ⟨_, _, rfl⟩ := hops_ok h
-  rcases pathWithHops_spec g a z hops cutoff with ⟨he, hno⟩ | ⟨hp, _⟩
+  rcases pathWithHops_spec strict g a z hops cutoff with ⟨he, hno⟩ | ⟨hp, _⟩
   · exact ⟨fun _ => hno, fun _ => he⟩
   · constructor
     · intro he
